@@ -115,264 +115,6 @@ KIND_TABLE = {
     ("Function", "__add__"): {"Function"}, ("Function", "__sub__"): {"Function"},
     ("Function", "__rmul__"): {"int", "float"}, ("Function", "__mul__"): {"int", "float"}, ("Function", "__truediv__"): {"int", "float"},
 }
-ALL_KINDS = {"Point", "Expression", "Function", "int", "float"}
-NEG_DOMAIN = ALL_KINDS           # every kind has a unary minus that keeps the kind
-RECIP_DOMAIN = {"int", "float"}  # 1 / x is a scalar only for scalars (anything else raises TypeError in python)
-
-
-def _isinstance_kinds(test, var):
-    """kinds K such that the test is `isinstance(var, K1) or isinstance(var, K2) ...` (None when another shape)"""
-    terms = test.values if isinstance(test, ast.BoolOp) and isinstance(test.op, ast.Or) else [test]
-    out = set()
-    for t in terms:
-        if isinstance(t, ast.Call) and call_name(t) == "isinstance" and len(t.args) == 2 and dotted(t.args[0]) == var:
-            k = t.args[1]
-            ks = k.elts if isinstance(k, ast.Tuple) else [k]
-            for x in ks:
-                out.add(dotted(x))
-        else:
-            return None
-    return out
-
-
-def accepted_kinds(cls, fn, depth=0):
-    """Kinds of the second operand for which the operator does not raise (None = unrestricted)."""
-    ps = params_of(fn)
-    if len(ps) < 2 or depth > 5:
-        return None
-    var = ps[1]
-    acc = None
-    for s in fn.body:
-        if isinstance(s, ast.Assert):
-            k = _isinstance_kinds(s.test, var)
-            if k is not None:
-                acc = k if acc is None else acc & k
-            continue
-        if isinstance(s, ast.If):
-            arms, orelse = flow.closed_chain(s)
-            ks = [_isinstance_kinds(t, var) for t, _ in arms]
-            if all(k is not None for k in ks):
-                if orelse and flow.always_raises(orelse):
-                    k = set().union(*ks)
-                    acc = k if acc is None else acc & k
-                    return acc
-                return None if acc is None else acc
-            continue
-        if isinstance(s, ast.Return):
-            d = _delegation(cls, s.value, var, depth)
-            if d is not None:
-                return d if acc is None else acc & d
-            return acc
-        if isinstance(s, ast.Expr):
-            continue
-    return acc
-
-
-def _delegation(cls, expr, var, depth):
-    """self.__op__(f(other)) / -self.__op__(...) / (-self <= -other) / Constraint(self - other, ...)"""
-    e = expr
-    while isinstance(e, ast.UnaryOp):
-        e = e.operand
-    if isinstance(e, ast.Call) and isinstance(e.func, ast.Attribute) and dotted(e.func.value) == "self" and e.func.attr.startswith("__"):
-        target = cls.find_method(e.func.attr)
-        if target is None:
-            return None
-        a = e.args[0] if e.args else (e.keywords[0].value if e.keywords else None)
-        inner = accepted_kinds(cls, target, depth + 1)
-        dom = _transform_domain(a, var)
-        if dom is None:
-            return inner
-        return dom if inner is None else inner & dom
-    if isinstance(e, ast.Compare):
-        # -self <= -other   : Expression comparison of the negated operands
-        sides = [e.left] + list(e.comparators)
-        for sd in sides:
-            x = sd
-            while isinstance(x, ast.UnaryOp):
-                x = x.operand
-            if dotted(x) == var:
-                m = cls.find_method({ast.LtE: "__le__", ast.GtE: "__ge__", ast.Lt: "__lt__", ast.Gt: "__gt__", ast.Eq: "__eq__"}[type(e.ops[0])])
-                return accepted_kinds(cls, m, depth + 1) if m is not None else None
-    if isinstance(e, ast.Call) and call_name(e) == "Constraint":
-        a = get_arg(e, 0, "expression")
-        if isinstance(a, ast.BinOp) and dotted(a.left) == "self" and dotted(a.right) == var:
-            m = cls.find_method({ast.Sub: "__sub__", ast.Add: "__add__"}.get(type(a.op), ""))
-            return accepted_kinds(cls, m, depth + 1) if m is not None else None
-    return None
-
-
-def _transform_domain(a, var):
-    if a is None:
-        return None
-    if dotted(a) == var:
-        return set(ALL_KINDS)
-    if isinstance(a, ast.UnaryOp) and isinstance(a.op, ast.USub) and dotted(a.operand) == var:
-        return set(NEG_DOMAIN)
-    if isinstance(a, ast.BinOp) and isinstance(a.op, ast.Div) and dotted(a.right) == var:
-        return set(RECIP_DOMAIN)
-    if dotted(a) == "self":
-        return None
-    return None
-
-
-def r_closed(ctx):
-    repo = ctx.repo
-    n = 0
-    for (cname, op), want in sorted(KIND_TABLE.items()):
-        cls = repo.cls(cname)
-        fn = cls.methods.get(op)
-        if fn is None:
-            ctx.ob("R-CLOSED", "%s.%s" % (cname, op), False, "documented operator is not defined", cls.module.rel)
-            continue
-        n += 1
-        got = accepted_kinds(cls, fn)
-        ok = got is not None and got == want
-        ctx.ob("R-CLOSED", "%s.%s" % (cname, op), ok,
-               "accepts exactly %s and raises otherwise" % sorted(want) if ok else
-               "accepts %s; documented operand kinds are %s (another kind must raise instead of producing an object with another meaning)"
-               % ("any operand" if got is None else sorted(got), sorted(want)), loc(fn, fn))
-    # Point ** power accepts power == 2 only
-    fn = repo.cls("Point").methods.get("__pow__")
-    ok = fn is not None and any(isinstance(s, ast.Assert) and src(s.test).replace(" ", "") in ("power==2", "2==power") for s in fn.body)
-    ctx.ob("R-CLOSED", "Point.__pow__", ok, "only the square of a point is defined" if ok else "the exponent is not restricted to 2", loc(fn, fn) if fn else "PEPit/point.py")
-    ctx.count("operators with documented operand kinds", n)
-    return n
-
-
-# ---------------------------------------------------------------------------------------------------
-class _OpEval(Evaluator):
-    """Normal form of what a derived operator returns, base operators taken with their intended meaning."""
-
-    def __init__(self, cls, env, base, depth=0):
-        super().__init__(env)
-        self.cls, self.base, self.depth = cls, base, depth
-
-    def name(self, node):
-        raise AnalysisError("unbound name %s" % node.id)
-
-    def call(self, node):
-        nm = call_name(node)
-        if isinstance(node.func, ast.Attribute) and dotted(node.func.value) == "self" and nm.startswith("__"):
-            a = node.args[0] if node.args else (node.keywords[0].value if node.keywords else None)
-            arg = self.ev(a) if a is not None else None
-            me = self.env["self"]
-            if nm in self.base:
-                return self.base[nm](me, arg)
-            m = self.cls.find_method(nm)
-            if m is not None and self.depth < 4:
-                return eval_operator(self.cls, m, me, arg, self.base, self.depth + 1)
-        raise AnalysisError("call %s" % src(node))
-
-
-def eval_operator(cls, fn, a, b, base, depth=0):
-    ps = params_of(fn)
-    env = {"self": a}
-    if len(ps) > 1:
-        env[ps[1]] = b
-    ev = _OpEval(cls, env, base, depth)
-    for s in fn.body:
-        if isinstance(s, ast.Return):
-            return ev.ev(s.value)
-        if isinstance(s, (ast.Assert, ast.Expr)):
-            continue
-        raise AnalysisError("%s.%s: statement `%s` outside the analysed fragment" % (cls.name, fn.name, norm_stmt(s)[:50]))
-    raise AnalysisError("%s.%s returns nothing" % (cls.name, fn.name))
-
-
-def r_reflect(ctx):
-    repo = ctx.repo
-    for cname in ("Point", "Expression"):
-        cls = repo.cls(cname)
-        if cname == "Point":
-            a, b, c = PointV.atom("a"), PointV.atom("b"), Rat.sym("c")
-            base = {"__add__": lambda x, y: v_add(x, y), "__rmul__": lambda x, y: v_mul(y, x)}
-            table = {"__sub__": (b, a - b), "__neg__": (None, -a), "__mul__": (c, a.scale(c)), "__truediv__": (c, a.scale(Rat(1) / c)),
-                     "__pow__": (Rat(2), a.dot(a))}
-        else:
-            a, b, c = ExprV.atom("a"), ExprV.atom("b"), Rat.sym("c")
-            base = {"__add__": lambda x, y: v_add(x, y), "__rmul__": lambda x, y: v_mul(y, x)}
-            table = {"__sub__": (b, a - b), "__neg__": (None, -a), "__mul__": (c, a.scale(c)), "__truediv__": (c, a.scale(Rat(1) / c)),
-                     "__radd__": (c, a + c), "__rsub__": (c, ExprV.const(c) - a)}
-        for op, (arg, want) in table.items():
-            fn = cls.methods.get(op)
-            if fn is None:
-                ctx.ob("R-REFLECT", "%s.%s" % (cname, op), False, "operator not defined", cls.module.rel)
-                continue
-            try:
-                got = eval_operator(cls, fn, a, arg, base)
-                ok = type(got) is type(want) and got.equals(want)
-                msg = "denotes `%s`" % want if ok else "denotes `%s`, expected `%s`" % (got, want)
-            except (AnalysisError, SortError) as e:
-                ok, msg = False, "not definitional: %s" % e
-            ctx.ob("R-REFLECT", "%s.%s" % (cname, op), ok, msg, loc(fn, fn))
-    # Function: same delegation shape
-    cls = repo.cls("Function")
-    for op, target, argshape in (("__sub__", "__add__", "neg"), ("__neg__", "__rmul__", "-1"), ("__mul__", "__rmul__", "same"), ("__truediv__", "__rmul__", "recip")):
-        fn = cls.methods.get(op)
-        ok = False
-        if fn is not None:
-            rets = [s for s in fn.body if isinstance(s, ast.Return)]
-            if len(rets) == 1 and isinstance(rets[0].value, ast.Call) and dotted(rets[0].value.func) == "self." + target:
-                c = rets[0].value
-                a = c.args[0] if c.args else c.keywords[0].value
-                p = params_of(fn)[1] if len(params_of(fn)) > 1 else None
-                ok = {"neg": isinstance(a, ast.UnaryOp) and isinstance(a.op, ast.USub) and dotted(a.operand) == p,
-                      "-1": isinstance(a, ast.UnaryOp) and isinstance(a.op, ast.USub) and is_const(a.operand, 1) or is_const(a, -1),
-                      "same": dotted(a) == p,
-                      "recip": isinstance(a, ast.BinOp) and isinstance(a.op, ast.Div) and is_const(a.left, 1) and dotted(a.right) == p}[argshape]
-        ctx.ob("R-REFLECT", "Function.%s" % op, ok, "defined through %s" % target if ok else "not the documented delegation to %s" % target, loc(fn, fn) if fn else cls.module.rel)
-
-
-# ---------------------------------------------------------------------------------------------------
-def r_baseops(ctx):
-    """Shape of the base operators: merge / scale / multiply of decompositions into a NEW non-leaf object."""
-    repo = ctx.repo
-    for cname in DSL:
-        cls = repo.cls(cname)
-        add = cls.methods.get("__add__")
-        other = params_of(add)[1]
-        merges = [c for c in ast.walk(add) if isinstance(c, ast.Call) and call_name(c) == "merge_dict"]
-        want = [{"self.decomposition_dict", "%s.decomposition_dict" % other}]
-        if cname == "Expression":
-            want.append({"self.decomposition_dict", "{1: %s}" % other})
-        got = [{src(a) for a in m.args} for m in merges]
-        ok = sorted(map(sorted, got)) == sorted(map(sorted, want))
-        rets = [r for r in ast.walk(add) if isinstance(r, ast.Return)]
-        okr = len(rets) == 1 and _new_nonleaf(rets[0].value, cname, add, merges)
-        ctx.ob("R-BASEOPS", "%s.__add__" % cname, ok and okr,
-               "returns a new non-leaf %s whose decomposition is the merge of both decompositions" % cname if ok and okr else
-               "merges %s (expected %s); new non-leaf object from the merge: %s" % (got, want, okr), loc(add, add))
-        rm = cls.methods.get("__rmul__")
-        other = params_of(rm)[1]
-        loops = [l for l in flow.stmts_of(rm, ast.For) if isinstance(l.iter, ast.Call) and call_name(l.iter) == "items" and dotted(l.iter.func.value) == "self.decomposition_dict"]
-        oks = False
-        if len(loops) == 1 and isinstance(loops[0].target, ast.Tuple):
-            k, v = [e.id for e in loops[0].target.elts]
-            body = loops[0].body
-            oks = len(body) == 1 and isinstance(body[0], ast.Assign) and isinstance(body[0].targets[0], ast.Subscript) and dotted(body[0].targets[0].slice) == k \
-                and isinstance(body[0].value, ast.BinOp) and isinstance(body[0].value.op, ast.Mult) and {src(body[0].value.left), src(body[0].value.right)} == {v, other}
-            if oks:
-                newd = dotted(body[0].targets[0].value)
-                ini = [s for s in flow.stmts_of(rm, ast.Assign) if any(isinstance(t, ast.Name) and t.id == newd for t in s.targets)]
-                oks = len(ini) == 1 and src(ini[0].value) in ("dict()", "{}") and any(
-                    isinstance(r, ast.Return) and isinstance(r.value, ast.Call) and call_name(r.value) == cname and dotted(get_arg(r.value, 1, "decomposition_dict")) == newd
-                    and is_const(get_arg(r.value, 0, "is_leaf"), False) for r in ast.walk(rm))
-        ctx.ob("R-BASEOPS", "%s.__rmul__::scalar" % cname, oks,
-               "returns a new non-leaf %s with every coefficient multiplied by the scalar" % cname if oks else "the scalar arm is not `new[key] = value * scalar` into a fresh dict of a new non-leaf object", loc(rm, rm))
-    pt = repo.cls("Point").methods["__rmul__"]
-    other = params_of(pt)[1]
-    mult = [c for c in ast.walk(pt) if isinstance(c, ast.Call) and call_name(c) == "multiply_dicts"]
-    ok = len(mult) == 1 and {src(a) for a in mult[0].args} == {"self.decomposition_dict", "%s.decomposition_dict" % other}
-    if ok:
-        st = common.stmt_of(mult[0])
-        nm = st.targets[0].id if isinstance(st, ast.Assign) else None
-        ok = any(isinstance(r, ast.Return) and isinstance(r.value, ast.Call) and call_name(r.value) == "Expression" and is_const(get_arg(r.value, 0, "is_leaf"), False)
-                 and (dotted(get_arg(r.value, 1, "decomposition_dict")) == nm or get_arg(r.value, 1, "decomposition_dict") is mult[0]) for r in ast.walk(pt))
-    ctx.ob("R-BASEOPS", "Point.__rmul__::point", ok, "point * point is a new non-leaf Expression over the products of the two decompositions" if ok else
-           "the inner product is not built from multiply_dicts of both decompositions into a new non-leaf Expression", loc(pt, pt))
-    pw = repo.cls("Point").methods.get("__pow__")
-    okp = pw is not None and any(isinstance(r, ast.Return) and src(r.value).replace(" ", "") in ("self.__rmul__(self)", "self.__rmul__(other=self)", "self*self", "self.__mul__(self)") for r in ast.walk(pw))
-    ctx.ob("R-BASEOPS", "Point.__pow__", okp, "x ** 2 is x * x" if okp else "x ** 2 is not defined as x * x", loc(pw, pw) if pw else "PEPit/point.py")
 
 
 def r_hash(ctx):
